@@ -422,7 +422,10 @@ class MinFlowDecompCycles(walkmodel.AbstractWalkModelDiGraph):
         # The min-gen-set bound reasons about the flow values of ALL weighted edges and the total source flow;
         # it is only valid when none of the weighted edges is ignored.
         ignores_weighted_edges = any(self.G.has_edge(*e) and self.flow_attr in self.G.edges[e] for e in self.edges_to_ignore)
-        if self.optimization_options.get("use_min_gen_set_lowerbound", MinFlowDecompCycles.use_min_gen_set_lowerbound) and not ignores_weighted_edges:  
+        # The total source flow is computed from the edge values: it is only known when every edge carries one
+        # (not so for node-weighted input, whose connecting edges have no value)
+        has_unweighted_edges = any(self.flow_attr not in self.G.edges[e] for e in self.G.edges())
+        if self.optimization_options.get("use_min_gen_set_lowerbound", MinFlowDecompCycles.use_min_gen_set_lowerbound) and not ignores_weighted_edges and not has_unweighted_edges:  
             mingenset_lowerbound = self._get_lowerbound_with_min_gen_set()
             if mingenset_lowerbound is not None:
                 self._lowerbound_k = max(self._lowerbound_k, mingenset_lowerbound)
